@@ -62,7 +62,8 @@ def s_solve(ch, T):
                                  ((1, 2), (1, 2, n, 2)), ((2,), (n,))])
     batch, rhs = cfg
     return Case("solve", "np.linalg.solve(x, y)", dict(x=_mat(T, batch, n), y=T.arr(rhs)),
-                dict(n=n, batch=len(batch), rhs_rank=len(rhs), rhs_vector=(len(rhs) == 1)), family="L", modes=("rev",))
+                dict(n=n, batch=len(batch), rhs_rank=len(rhs), rhs_vector=(len(rhs) == 1),
+                     batch_broadcast=(tuple(batch) != tuple(rhs[:-2] if len(rhs) > 1 else ()))), family="L", modes=("rev",))
 
 
 @spec("norm", "L")
